@@ -1856,3 +1856,188 @@ C04_INT_ADD = dict(
 )
 
 ALL += [C04_SINGLE_EFFECT_MAP, C04_INT_ADD]
+
+# ---- C01: the id encoders of data.py (vocabulary: end of Model/Encode.v; proofs: Proofs/C01Source.v) ----
+# numpy: a 1-d array is the list of its values, an id array (`idarray`) also carries "integer dtype".  pandas: a DataFrame is
+# the list of its rows in order, each with its index label (`frame R`), typed by its column set; a Series is the list of its
+# values (positional operators).  Trusted per entry: ONE numpy / pandas call each.  Doses are order keys: the only float
+# operation is `<= 0`.
+_C01 = dict(file="src/batchie/data.py", out="SrcEncode.v", imports="Generated.Consts Model.Encode", overload=True)
+_SENTINEL = ("CONTROL_SENTINEL_VALUE", "CONTROL_SENTINEL_VALUE", "Z")        # the module constant (Generated/Consts.v: read from common.py)
+_ZL = {"a": "list Z", "b": "list Z"}
+C01_VALID_IDS = dict(
+    _C01, func="numpy_array_is_0_indexed_integers", name="src_numpy_array_is_0_indexed_integers", pyparams=["arr"],
+    params=[("arr", "idarray")], returns="bool", vars={},
+    prims=[_SENTINEL,
+           ("np.issubdtype(__a.dtype, int)", "arr_is_int {a}", "bool", {"a": "idarray"}),
+           ("__x in __a", "np_contains {x} {a}", "bool", {"x": "Z", "a": "idarray"}),              # numpy's `in`: (a == x).any()
+           ("np.unique(__a)", "np_unique_ids {a}", "list Z", {"a": "idarray"}),                    # sorted distinct values
+           ("np.sort(__a)", "np_sort_Z {a}", "list Z", {"a": "list Z"}),
+           ("__a.shape[0]", "Z.of_nat (length {a})", "Z", {"a": "list Z"}),
+           ("np.arange(__n)", "zrange {n}", "list Z", {"n": "Z"}),                                  # 0 .. n-1, empty for n <= 0
+           ("np.array(__a)", "{a}", "list Z", {"a": "list Z"}),                                     # np.array([x]): the list's values
+           ("np.concatenate([__a, __b])", "{a} ++ {b}", "list Z", _ZL),
+           ("__a == __b", "np_eq_Z {a} {b}", "list bool", _ZL),                                     # elementwise, equal shapes
+           ("np.all(__b)", "all_true {b}", "bool", {"b": "list bool"})],
+)
+
+_TMAP_PY, _SMAP_PY = "(list name * list Z * idarray)", "(list name * idarray)"
+_OPTIDS = "list (option Z)"               # the id column of a left merge: NaN (None) where the mapping has no row
+_PANDAS_COMMON = [
+    ("np.all(__b)", "all_true {b}", "bool", {"b": "list bool"}),
+    ("__s.notna()", "series_notna {s}", "list bool", {"s": _OPTIDS}),
+    ("__s.values", "{s}", _OPTIDS, {"s": _OPTIDS}),                                                # the column's values as an array
+    ("__s.to_numpy()", "{s}", "list name", {"s": "list name"}),
+    ("__s.to_numpy()", "{s}", "list Z", {"s": "list Z"}),
+]
+_DF_UNIQUE_T = "kframe | cframe | iframe | nframe | dframe | mframe"
+C01_ENCODE_TREATMENTS = dict(
+    _C01, func="encode_treatment_arrays_to_0_indexed_ids", name="src_encode_treatment_arrays",
+    pyparams=["treatment_name_arr", "treatment_dose_arr", "control_treatment_name", "existing_mapping"], pydefaults=["''", "None"],
+    params=[("treatment_name_arr", "list name"), ("treatment_dose_arr", "list Z"), ("control_treatment_name", "name"),
+            ("existing_mapping", "opt " + _TMAP_PY)],
+    returns="(%s * list name * list Z * list Z)" % _OPTIDS,
+    vars={"df": "kframe", "df_unique": _DF_UNIQUE_T, "dose_is_zero": "list bool", "treatment_is_control": "list bool",
+          "is_control": "list bool", "selection": "list Z", "joined": "jframe"},
+    plain_contexts=["pandas.option_context('mode.copy_on_write', True)"], with_return=True,
+    prims=[_SENTINEL,
+           ("__m[0]", "fst (fst {m})", "list name", {"m": _TMAP_PY}), ("__m[1]", "snd (fst {m})", "list Z", {"m": _TMAP_PY}),
+           ("__m[2]", "snd {m}", "idarray", {"m": _TMAP_PY}),
+           ("pandas.DataFrame({'name': __a, 'dose': __b})", "!df_of_cols2 {a} {b}", "kframe", {"a": "list name", "b": "list Z"}),
+           ("pandas.DataFrame({'name': __a, 'dose': __b, 'new_index': __c})", "!mframe_of_cols {a} {b} {c}", "mframe",
+            {"a": "list name", "b": "list Z", "c": "idarray"}),
+           ("__d.drop_duplicates()", "df_drop_duplicates tkey_eqb {d}", "kframe", {"d": "kframe"}),
+           ("__d.sort_values(by=['name', 'dose'])", "df_sort_values tkey_cmp {d}", "kframe", {"d": "kframe"}),
+           ("__d.reset_index(drop=True)", "df_reset_drop {d}", "kframe", {"d": "kframe"}),
+           ("__d.reset_index(drop=False)", "df_reset_keep {d}", "iframe", {"d": "cframe"}),
+           ("__d['dose']", "kcol_dose {d}", "list Z", {"d": "kframe"}),
+           ("__d['name']", "kcol_name {d}", "list name", {"d": "kframe"}),
+           ("__s <= 0", "series_le0 {s}", "list bool", {"s": "list Z"}),                            # the one float comparison
+           ("__s == __c", "series_eq_name {s} {c}", "list bool", {"s": "list name", "c": "name"}),
+           ("__a | __b", "series_or {a} {b}", "list bool", {"a": "list bool", "b": "list bool"}),
+           ("__d.index", "df_index {d}", "list Z", {"d": "iframe"}), ("__d.index", "df_index {d}", "list Z", {"d": "nframe"}),
+           ("__d.is_control", "icol_is_control {d}", "list bool", {"d": "iframe"}),
+           ("__d.is_control", "ncol_is_control {d}", "list bool", {"d": "nframe"}),
+           ("__s.cumsum()", "series_cumsum {s}", "list Z", {"s": "list bool"}),
+           ("__a - __b", "series_sub {a} {b}", "list Z", _ZL),                                      # Index - Series
+           ("__i[__m]", "series_select {m} {i}", "list Z", {"i": "list Z", "m": "list bool"}),      # Index[boolean Series]
+           ("__l.merge(__r, on=['name', 'dose'], how='left')", "df_merge_left tkey_eqb {l} {r}", "jframe", {"l": "kframe", "r": "mframe"}),
+           ("__d.new_index", "jcol_new_index {d}", _OPTIDS, {"d": "jframe"}),
+           ("__d.new_index", "mcol_new_index {d}", "list Z", {"d": "mframe"}),
+           ("__d.name", "mcol_name {d}", "list name", {"d": "mframe"}), ("__d.dose", "mcol_dose {d}", "list Z", {"d": "mframe"}),
+           ] + _PANDAS_COMMON,
+    retype_effects=[
+        ("df_unique['is_control'] = __s", "df_unique", "df_add_col {state} {s}", "kframe", "cframe", {"s": "list bool"}),
+        ("df_unique['new_index'] = __s", "df_unique", "df_add_col {state} {s}", "iframe", "nframe", {"s": "list Z"}),
+        ("df_unique.loc[__l, 'new_index'] = __v", "df_unique", "df_loc_set {state} {l} {v}", "nframe", "nframe", {"l": "list Z", "v": "Z"}),
+        ("del df_unique['index']", "df_unique", "df_del_index {state}", "nframe", "dframe"),
+        ("del df_unique['is_control']", "df_unique", "df_del_is_control {state}", "dframe", "mframe")],
+    raises=[("Mapping of treatments to ids failed", 5)],
+)
+C01_ENCODE_1D = dict(
+    _C01, func="encode_1d_array_to_0_indexed_ids", name="src_encode_1d_array", pyparams=["arr", "existing_mapping"], pydefaults=["None"],
+    params=[("arr", "list name"), ("existing_mapping", "opt " + _SMAP_PY)],
+    returns="(%s * list name * list Z)" % _OPTIDS,
+    vars={"df": "vframe", "df_unique": "vframe | viframe | vmframe", "joined": "frame (name * option Z)"},
+    plain_contexts=["pandas.option_context('mode.copy_on_write', True)"], with_return=True,
+    prims=[("__m[0]", "fst {m}", "list name", {"m": _SMAP_PY}), ("__m[1]", "snd {m}", "idarray", {"m": _SMAP_PY}),
+           ("pandas.DataFrame({'val': __a})", "vframe_of_col {a}", "vframe", {"a": "list name"}),
+           ("pandas.DataFrame({'val': __a, 'new_index': __b})", "!vmframe_of_cols {a} {b}", "vmframe", {"a": "list name", "b": "idarray"}),
+           ("__d.drop_duplicates()", "df_drop_duplicates name_eqb {d}", "vframe", {"d": "vframe"}),
+           ("__d.sort_values(by='val')", "df_sort_values name_cmp {d}", "vframe", {"d": "vframe"}),
+           ("__d.reset_index(drop=True)", "df_reset_drop {d}", "vframe", {"d": "vframe"}),
+           ("__d.reset_index(drop=False)", "df_reset_keep {d}", "viframe", {"d": "vframe"}),
+           ("__d.rename(columns={'index': 'new_index'})", "df_rename_index {d}", "vmframe", {"d": "viframe"}),
+           ("__l.merge(__r, on=['val'], how='left')", "df_merge_left name_eqb {l} {r}", "frame (name * option Z)", {"l": "vframe", "r": "vmframe"}),
+           ("__d.new_index", "jcol_new_index {d}", _OPTIDS, {"d": "frame (name * option Z)"}),
+           ("__d.new_index", "vmcol_new_index {d}", "list Z", {"d": "vmframe"}),
+           ("__d.val", "vmcol_val {d}", "list name", {"d": "vmframe"}),
+           ] + _PANDAS_COMMON,
+    raises=[("Mapping to ids failed", 6)],
+)
+ALL += [C01_VALID_IDS, C01_ENCODE_TREATMENTS, C01_ENCODE_1D]
+
+# Screen.__init__: the statements that encode names and doses to ids (py2gal body_slice; the observation-mask statements are
+# C12_INIT_*).  treatment_names / treatment_doses are 2-d arrays `(arr2 T)` = (shape[1], rows); the three encoder calls run
+# the translated encoders above; `self.<attr>` stores are variables (attr_vars) and the run's value is the tuple of the six
+# stored attributes.  Trusted per entry: ONE numpy call / tuple projection each (meanings: end of Model/Screen.v).
+_A2N, _A2Z, _A2I = "(arr2 name)", "(arr2 Z)", "(arr2 (option Z))"
+_TRIPLE, _PAIR = "(list name * list Z * list Z)", "(list name * list Z)"
+_INIT_C01 = dict(
+    file="src/batchie/data.py", cls="Screen", func="__init__", out="SrcScreenIds.v",
+    imports="Generated.Consts Model.Encode Model.Screen Generated.SrcEncode", overload=True,
+    pyparams=["self", "treatment_names", "treatment_doses", "sample_names", "plate_names", "observations", "observation_mask",
+              "control_treatment_name", "treatment_mapping", "sample_mapping"],
+    pydefaults=["None", "None", "''", "None", "None"],
+)
+C01_INIT_CTRL = dict(
+    _INIT_C01, name="src_init_control_name",
+    body_slice=("self.control_treatment_name = control_treatment_name", "self.control_treatment_name = control_treatment_name"),
+    attr_vars={"self.control_treatment_name": "self_control_treatment_name"},
+    params=[("control_treatment_name", "name")], returns="name", vars={"self_control_treatment_name": "name"},
+    implicit_return="{self_control_treatment_name}",
+)
+C01_INIT_IDS = dict(
+    _INIT_C01, name="src_init_ids",
+    body_slice=("treatment_arity = treatment_names.shape[1]", "self._plate_mapping = (unique_plate_names, unique_plate_ids)"),
+    attr_vars={"self.control_treatment_name": "self_control_treatment_name", "self._treatment_mapping": "self_treatment_mapping",
+               "self._treatment_ids": "self_treatment_ids", "self._sample_ids": "self_sample_ids",
+               "self._sample_mapping": "self_sample_mapping", "self._plate_ids": "self_plate_ids",
+               "self._plate_mapping": "self_plate_mapping"},
+    params=[("treatment_names", _A2N), ("treatment_doses", _A2Z), ("sample_names", "list name"), ("plate_names", "list name"),
+            ("treatment_mapping", "opt " + _TMAP_PY), ("sample_mapping", "opt " + _SMAP_PY), ("self_control_treatment_name", "name")],
+    returns="(%s * %s * %s * %s * %s * %s)" % (_TRIPLE, _A2I, _OPTIDS, _PAIR, _OPTIDS, _PAIR),
+    vars={"treatment_arity": "Z", "dose_class_combos": "list (list name * list Z)", "i": "Z", "x": "(list name * list Z)",
+          "all_dose_names": "list name", "all_drug_names": "list Z",
+          "all_dose_class_combos_encoded": _OPTIDS, "unique_treatment_names": "list name", "unique_treatment_doses": "list Z",
+          "unique_treatment_ids": "list Z", "unique_sample_names": "list name", "unique_sample_ids": "list Z",
+          "unique_plate_names": "list name", "unique_plate_ids": "list Z",
+          "self_treatment_mapping": _TRIPLE, "self_treatment_ids": _A2I, "self_sample_ids": _OPTIDS, "self_sample_mapping": _PAIR,
+          "self_plate_ids": _OPTIDS, "self_plate_mapping": _PAIR},
+    prims=[("__a.shape[1]", "arr2_shape1 {a}", "Z", {"a": _A2N}),
+           ("__a[:, __i]", "!arr2_col [] {a} {i}", "list name", {"a": _A2N, "i": "Z"}),
+           ("__a[:, __i]", "!arr2_col 0 {a} {i}", "list Z", {"a": _A2Z, "i": "Z"}),
+           ("__x[0]", "fst {x}", "list name", {"x": "(list name * list Z)"}), ("__x[1]", "snd {x}", "list Z", {"x": "(list name * list Z)"}),
+           ("np.concatenate(__l)", "!np_concat {l}", "list name", {"l": "list list name"}),
+           ("np.concatenate(__l)", "!np_concat {l}", "list Z", {"l": "list list Z"}),
+           ("__m[-1]", "snd {m}", "idarray", {"m": _TMAP_PY}), ("__m[-1]", "snd {m}", "idarray", {"m": _SMAP_PY}),
+           # the three callees run their translations (C01_VALID_IDS, C01_ENCODE_1D above; the default of existing_mapping is
+           # checked there by pydefaults)
+           ("numpy_array_is_0_indexed_integers(__a)", "!src_numpy_array_is_0_indexed_integers {a}", "bool", {"a": "idarray"}),
+           ("encode_1d_array_to_0_indexed_ids(__a, existing_mapping=__m)", "!src_encode_1d_array {a} {m}",
+            "(%s * list name * list Z)" % _OPTIDS, {"a": "list name", "m": "opt " + _SMAP_PY}),
+           ("encode_1d_array_to_0_indexed_ids(__a)", "!src_encode_1d_array {a} None", "(%s * list name * list Z)" % _OPTIDS, {"a": "list name"}),
+           ("np.split(__a, __n)", "!np_split {a} {n}", "list list (option Z)", {"a": _OPTIDS, "n": "Z"}),
+           ("np.vstack(__l)", "!np_vstack {l}", _A2I, {"l": "list list (option Z)"}),
+           ("__a.T", "arr2_T None {a}", _A2I, {"a": _A2I})],
+    kwcalls={"encode_treatment_arrays_to_0_indexed_ids": (
+        "!src_encode_treatment_arrays {treatment_name_arr} {treatment_dose_arr} {control_treatment_name} {existing_mapping}",
+        "(%s * list name * list Z * list Z)" % _OPTIDS,
+        [("treatment_name_arr", "list name", None), ("treatment_dose_arr", "list Z", None),
+         ("control_treatment_name", "name", "[]"), ("existing_mapping", "opt " + _TMAP_PY, "None")])},
+    raises=[("Invalid treatment mapping", 3), ("Invalid sample mapping", 4)],
+    implicit_return="({self_treatment_mapping}, {self_treatment_ids}, {self_sample_ids}, {self_sample_mapping}, {self_plate_ids}, {self_plate_mapping})",
+)
+ALL += [C01_INIT_CTRL, C01_INIT_IDS]
+
+# ExperimentSpace.n_unique_samples / n_unique_treatments (the sizes C01 bounds every id by): `self` is the mapping tuple the
+# property reads (from_screen passes the screen's stored tuples: C02_SPACE_FROM_SCREEN).  Trusted: one numpy call each.
+_SPACE_C01 = dict(file="src/batchie/data.py", cls="ExperimentSpace", out="SrcScreenIds.v",
+                  imports="Generated.Consts Model.Encode Model.Screen Generated.SrcEncode", overload=True, pyparams=["self"],
+                  returns="Z", vars={})
+_SPACE_NUMPY = [
+    _SENTINEL,
+    ("__m[0]", "fst {m}", "list name", {"m": _PAIR}), ("__m[2]", "snd {m}", "list Z", {"m": _TRIPLE}),
+    ("np.unique(__a)", "sort_uniq name_cmp {a}", "list name", {"a": "list name"}),      # sorted distinct values
+    ("np.unique(__a)", "sort_uniq Z.compare {a}", "list Z", {"a": "list Z"}),
+    ("np.setdiff1d(__a, __b)", "np_setdiff1d {a} {b}", "list Z", _ZL),
+    ("np.array(__a)", "{a}", "list Z", {"a": "list Z"}),
+    ("__a.size", "Z.of_nat (length {a})", "Z", {"a": "list name"}), ("__a.size", "Z.of_nat (length {a})", "Z", {"a": "list Z"}),
+]
+C01_SPACE_N_SAMPLES = dict(
+    _SPACE_C01, func="n_unique_samples", name="src_space_n_unique_samples",
+    attr_vars={"self.sample_mapping": "self_sample_mapping"}, params=[("self_sample_mapping", _PAIR)], prims=_SPACE_NUMPY)
+C01_SPACE_N_TREATMENTS = dict(
+    _SPACE_C01, func="n_unique_treatments", name="src_space_n_unique_treatments",
+    attr_vars={"self.treatment_mapping": "self_treatment_mapping"}, params=[("self_treatment_mapping", _TRIPLE)], prims=_SPACE_NUMPY)
+ALL += [C01_SPACE_N_SAMPLES, C01_SPACE_N_TREATMENTS]
